@@ -28,15 +28,18 @@ ASSUMPTIONS = [
     "an entry's size is the sum of the sizes of the files in its directory (what the store reports)",
 ]
 SHARDS = {"quick": 12, "thorough": 14}
-FLOORS = {"quick": {"fractional_age_limit_cases": 30, "contract_evaluations_in_repo_tests": 8, "conclusive": 2000, "stores_with_eviction": 600, "survivor_hits_checked": 2000, "evicted_recomputed_checked": 1500},
+FLOORS = {"quick": {"fractional_age_limit_cases": 30, "contract_evaluations_in_repo_tests": 8, "conclusive": 2000, "stores_with_eviction": 600, "survivor_hits_checked": 2000, "evicted_recomputed_checked": 1500, "second_reductions_after_entries_were_rewritten_in_place": 60},
           "thorough": {"contract_evaluations_in_repo_tests": 8, "conclusive": 30000, "stores_with_eviction": 10000, "survivor_hits_checked": 30000, "evicted_recomputed_checked": 25000}}
 
 CALLS = []
 
 
+GROW = {}      # (i, n) -> size of the result when the entry is computed AGAIN (the function's output changed, e.g. more data)
+
+
 def blob(i, n):
     CALLS.append(("blob", i, n))
-    return b"x" * n
+    return b"x" * GROW.get((i, n), n)
 
 
 def blob2(i, n):
@@ -328,6 +331,48 @@ def run_case(case, ctx):
         if case["i"] % 400 == 0:
             desc["evicted"] = sorted((round(ages[p], 1), inv[p][0]) for p in E)
             ctx.sample(desc)
+        # second round on the SAME Memory object: surviving entries of `blob` are computed again with another size at the same
+        # path (MemorizedFunc.call: forced execution), then the store is reduced once more - from what it holds NOW
+        again = [p for p, (fn, i, sz) in dirs.items() if p in S and fn == "blob"]
+        if case["i"] % 4 == 1 and len(again) >= 2 and not frac:
+            try:
+                for p in rng.sample(again, rng.randint(1, len(again))):
+                    fn, i, sz = dirs[p]
+                    GROW[(i, sz)] = rng.choice([0, sz // 3, sz * 4 + 2000, sz + 7000])
+                    with warnings.catch_warnings():
+                        warnings.simplefilter("ignore")
+                        fs[fn].call(i, sz)
+                now2 = time.time()
+                for k2, p in enumerate(sorted(S)):
+                    target = os.path.join(p, "output.pkl") if p in dirs else p
+                    os.utime(target, (now2 - 1000 - 97 * k2, now2 - 1000 - 97 * k2 if p in dirs else now2 - 10 ** 6))
+                inv2 = scan(d)
+                by_recency = sorted(inv2.values(), key=lambda v: -v[1])
+                keep = rng.randint(0, len(by_recency))
+                bl2 = sum(v[0] for v in by_recency[:keep]) + rng.choice([0, 0, -1, 1])
+                bl2 = max(bl2, 0)
+                with warnings.catch_warnings():
+                    warnings.simplefilter("ignore")
+                    mem.reduce_size(bytes_limit=bl2)
+                after2 = set(scan(d))
+                S2, E2 = after2, set(inv2) - after2
+                ctx.count("second_reductions_after_entries_were_rewritten_in_place")
+                desc2 = dict(round="second reduce_size on the same Memory after entries were computed again with another size",
+                             entries=sorted((round(time.time() - inv2[p][1]), inv2[p][0]) for p in inv2), bytes_limit=bl2,
+                             evicted=sorted((round(time.time() - inv2[p][1]), inv2[p][0]) for p in E2))
+                why2 = None
+                if sum(inv2[p][0] for p in S2) > bl2:
+                    why2 = "limit-not-met:bytes"
+                elif E2 and S2 and max(inv2[p][1] for p in E2) > min(inv2[p][1] for p in S2):
+                    why2 = "not-lru-prefix"
+                elif E2:
+                    mx = max(inv2[p][1] for p in E2)
+                    if not any(sum(inv2[q][0] for q in S2 | {e}) > bl2 for e in E2 if inv2[e][1] == mx):
+                        why2 = "not-minimal"
+                if why2:
+                    ctx.violation(why2 + ":second-round", f"{why2}: {desc2}", desc2)
+            finally:
+                GROW.clear()
     finally:
         os.environ.pop("TZ", None)
         time.tzset()
